@@ -543,6 +543,59 @@ def shadow_hash(rep, idx, rule):
              f"returns {ir.show(e)[:120]}",
              wrong=(f"modulo the register size the address reduces to {_lin_show(me)}: some chunk of the register is given an address that "
                     "decode_address does not map back to it") if reduced(me) else None)
+    # the high part of the offset: the start address reduced modulo the *shadow size* (start & (size - 1), or start % size) -- that is
+    # what makes the offsets of all registers distinct once the shadow is as large as the address range, the fact the give-up bound
+    # of prepare() rests on.  Another mask keeps only some of those bits: registers whose start addresses differ in the dropped bits
+    # share chunks at every size, balancing never succeeds, and a legal layout with a sharing limit is refused.
+    start = dec.parse("reg_range.start")
+    size_forms = (dec.parse("self._size"), dec.parse("self.size"))
+    masks = []
+    for x in ir.walk(d):
+        if x[0] == 'nary' and x[1] == '&' and start in x[2]:
+            masks.append([t for t in x[2] if t != start and not (t[0] == 'un' and t[1] == '~')])
+        if x[0] == 'bin' and x[1] == '%' and ir.mentions(x[2], start) and x[3] != R:
+            masks.append([('modsize', x[3])])
+    what_hi = "decode_address keeps every bit of the start address below the shadow size"
+    if len(masks) == 1 and len(masks[0]) == 1:
+        mk = masks[0][0]
+        good = mk in tuple(dec.norm(('bin', '-', z, ('const', 1))) for z in size_forms) or (mk[0] == 'modsize' and mk[1] in size_forms)
+        off = None
+        if not good and mk[0] == 'lin' and len(mk[2]) == 1 and mk[2][0][0] in size_forms and mk[2][0][1] == 1:
+            off = mk[1]
+        elif not good and mk in size_forms:
+            off = 0
+        rep.form(good, rule, dec.fi.site, what_hi, f"the start address is masked with {ir.show(mk[1] if mk[0] == 'modsize' else mk)[:60]}",
+                 wrong=(f"the mask is size {off:+d} instead of size - 1: it does not select the address bits below the shadow size, so registers "
+                        "whose start addresses differ in the unselected bits share chunks however large the shadow gets; prepare() then gives "
+                        "up (ValueError) on layouts that a sharing limit allows") if off is not None else None)
+    elif masks:
+        rep.unk(rule, dec.fi.site, what_hi, f"{len(masks)} maskings of the start address of another shape")
+    # the shadow size is a power of two (it is used as a bit mask, size - 1): add() folds 2 ** <something> into it
+    try:
+        add = get_fn(idx, "Multiplexer._Shadow.add")
+        folded = [add.norm(v) for t, v, gen, ln in getattr(add.t, "stores", []) if add.norm(t) in size_forms]
+    except Exception:
+        add, folded = None, []
+    if add is not None and not folded:
+        import ast as _ast
+        for st in _ast.walk(add.fi.node):
+            if isinstance(st, _ast.Assign) and len(st.targets) == 1 and _ast.unparse(st.targets[0]) in ("self._size", "self.size"):
+                env_ = {}
+                for b in _ast.walk(add.fi.node):
+                    if isinstance(b, _ast.Assign) and len(b.targets) == 1 and isinstance(b.targets[0], _ast.Name) and b is not st:
+                        env_[b.targets[0].id] = ir.from_ast(b.value, dict(env_))
+                folded.append(add.norm(ir.from_ast(st.value, env_)))
+    for v in folded:
+        pows = [x for x in ir.walk(v) if x[0] == 'bin' and x[1] == '**']
+        odd = [x for x in pows if x[2][0] == 'const' and x[2][1] != 2]
+        what_p = "add() keeps the shadow size a power of two"
+        if odd:
+            rep.bad(rule, add.fi.site, what_p, f"the size is raised to a power of {odd[0][2][1]} ({ir.show(v)[:80]}): size - 1 is then not a mask of the low "
+                    "address bits, chunks of different registers collide at every size and prepare() gives up on layouts a sharing limit allows")
+        elif pows and all(x[2] == ('const', 2) for x in pows):
+            rep.ok(rule, add.fi.site, what_p, f"self._size = {ir.show(v)[:80]}", nontrivial=False)
+        else:
+            rep.unk(rule, add.fi.site, what_p, f"self._size = {ir.show(v)[:80]}: not 2 ** <expression>")
     # encode lands inside [start, start + R): start + (<anything> % R)  or  start + (<anything> & (R - 1))
     def wraps(t):
         return (t[0] == 'bin' and t[1] == '%' and t[3] == R) or (t[0] == 'nary' and t[1] == '&' and M in t[2])
